@@ -397,6 +397,41 @@ var ruleBOMTable = &core.Rule{ID: "R07.3", Min: 7,
 				}
 			}
 		}
+		// and every entry is compared: inside the loop nothing but a length test that a prefix match implies anyway
+		// (len(input) >= len(mark)) may stand in front of the prefix test
+		body := loopBlocks(r.Header)
+		for _, b := range f.Blocks {
+			for _, in := range b.Instrs {
+				call, ok := in.(*ssa.Call)
+				if !ok || !core.CalleeIs(&call.Call, "bytes", "HasPrefix") || call.Call.Args[0] != ssa.Value(f.Params[0]) {
+					continue
+				}
+				for _, de := range core.DominatingConds(b) {
+					if de.From == r.Header || !body[de.From] {
+						continue
+					}
+					cond, val := core.StripNot(de.Cond, de.Val)
+					implied := false
+					if bo, ok := cond.(*ssa.BinOp); ok {
+						lenOf := func(v ssa.Value, of func(ssa.Value) bool) bool {
+							ln, ok := v.(*ssa.Call)
+							return ok && core.IsBuiltin(&ln.Call, "len") && of(ln.Call.Args[0])
+						}
+						isIn := func(v ssa.Value) bool { return v == ssa.Value(f.Params[0]) }
+						isMark := func(v ssa.Value) bool { return isFieldOfElem(v, r, 0) }
+						switch {
+						case lenOf(bo.X, isIn) && lenOf(bo.Y, isMark):
+							implied = (bo.Op == token.GEQ && val) || (bo.Op == token.LSS && !val)
+						case lenOf(bo.X, isMark) && lenOf(bo.Y, isIn):
+							implied = (bo.Op == token.LEQ && val) || (bo.Op == token.GTR && !val)
+						}
+					}
+					if !implied {
+						okShape, why = false, "inside the table loop a condition other than len(input) >= len(mark) stands in front of the prefix test: an input that starts with (or is exactly) a mark can be passed over"
+					}
+				}
+			}
+		}
 		s.Check(okShape, "lookup shape", c.Pos(f.Pos()), "first prefixing entry wins, else \"\"", why)
 	}}
 
@@ -1010,7 +1045,7 @@ var ruleRuneError = &core.Rule{ID: "R11.7", Min: 1,
 
 // R11.4
 var ruleASCIIClass = &core.Rule{ID: "R11.4", Min: 256,
-	Doc: "the ASCII shortcut (which answers utf-8 without validation) accepts only 7-bit bytes: its per-byte predicate, tabulated over 0..255 through the constant class table, accepts no byte >= 0x80; it accepts every printable ASCII byte, TAB, LF, CR",
+	Doc: "the ASCII shortcut (which answers utf-8 without validation) accepts only 7-bit bytes: its per-byte predicate, tabulated over 0..255 through the constant class table, accepts no byte >= 0x80; it accepts every printable ASCII byte and the control characters that the text detector lets through besides (TAB, LF, FF, CR, ESC)",
 	Run: func(c *core.Ctx, s *core.Sink) {
 		p := getPlain(c)
 		if p.ascii == nil {
@@ -1034,7 +1069,7 @@ var ruleASCIIClass = &core.Rule{ID: "R11.4", Min: 256,
 			switch {
 			case accepted && b >= 0x80:
 				s.Bad(key, c.Pos(g.Pos()), fmt.Sprintf("the ASCII shortcut accepts byte %#02x (>= 0x80): input containing it is reported as utf-8 without UTF-8 validation", b))
-			case !accepted && (b == '\t' || b == '\n' || b == '\r' || (b >= 0x20 && b < 0x7f)):
+			case !accepted && (b == '\t' || b == '\n' || b == '\f' || b == '\r' || b == 0x1b || (b >= 0x20 && b < 0x7f)):
 				s.Bad(key, c.Pos(g.Pos()), fmt.Sprintf("the ASCII test rejects plain ASCII text byte %#02x: pure ASCII text would not be reported as utf-8", b))
 			default:
 				s.OK(key, c.Pos(g.Pos()), map[bool]string{true: "accepted, 7-bit", false: "rejected"}[accepted])
@@ -1126,6 +1161,14 @@ var ruleTrim = &core.Rule{ID: "R11.5", Min: 2,
 						}
 					}
 					s.Check(ok, key, c.Pos(x.Pos()), "under !utf8.FullRune(tail)", "the buffer validated as UTF-8 is shortened without checking that the dropped tail is an incomplete rune: text ending in a complete multi-byte character loses it and is not recognised as UTF-8")
+					// one cut only: after it the search is over (a second round would drop a complete rune start, or another
+					// dangling lead byte, and let invalid input pass as UTF-8)
+					if ph, isPhi := x.High.(*ssa.Phi); isPhi && ok {
+						if hb := ph.Block(); core.Reach(x.Block())[hb] && loopBlocks(hb)[x.Block()] {
+							n++
+							s.Bad(fmt.Sprintf("re-slice #%d ends the search", n-1), c.Pos(x.Pos()), "after the incomplete final character has been cut the search loop goes on: up to three bytes can be removed one after the other, so input ending in several dangling lead bytes (invalid UTF-8) is reported as utf-8")
+						}
+					}
 					// the cut is live code: no condition on the way to it is constantly false
 					for _, de := range core.DominatingConds(x.Block()) {
 						cond, val := core.StripNot(de.Cond, de.Val)
